@@ -38,24 +38,24 @@ T = 'Pamqp.Props.'
 # property -> (Lean modules, property theorems, Tie-A theorems, lanes, oracles)
 REGISTRY = {
     'C01': dict(mods=['C01', 'C03'], thms=['C01_catalogue_wf', 'C01_catalogue_count', 'C01_roundtrip_generic', 'C01_method_roundtrip', 'C01_scalar_args_exact', 'C01_none_table'],
-                tie=['tieA_table_mapping', 'tieA_methods', 'tieA_struct_formats', 'tieA_struct_uses', 'tieA_envelope_struct_uses', 'tieA_frame_constants', 'tieA_codec_calls'],
+                tie=['tieA_table_mapping', 'tieA_methods', 'tieA_struct_formats', 'tieA_struct_uses', 'tieA_envelope_struct_uses', 'tieA_frame_constants', 'tieA_constant_values', 'tieA_codec_calls'],
                 lanes=['args/args.marshal,args.unmarshal', 'frame/frame.marshal.M,frame.unmarshal.M,frame.envelope', 'enc_prim', 'dec_prim'], oracles=['c01']),
     'C02': dict(mods=['C02', 'C02Reencode'], thms=['C02_flags_wf', 'C02_flags_msb_first', 'C02_class_id', 'C02_roundtrip_generic', 'C02_header_roundtrip', 'C02_signed_flag_word', 'C02_cluster_id_default', 'C02_float_idempotent', 'C02_norm_invisible', 'C02_defaults_unset', 'C02_reencode_generic'],
-                tie=['tieA_methods', 'tieA_struct_formats', 'tieA_struct_uses', 'tieA_envelope_struct_uses', 'tieA_content_header_struct_uses', 'tieA_frame_constants', 'tieA_codec_calls'],
+                tie=['tieA_methods', 'tieA_struct_formats', 'tieA_struct_uses', 'tieA_envelope_struct_uses', 'tieA_content_header_struct_uses', 'tieA_frame_constants', 'tieA_constant_values', 'tieA_codec_calls'],
                 lanes=['props', 'frame/frame.marshal.H,frame.unmarshal.H,frame.envelope'], oracles=['c02']),
     'C03': dict(mods=['C03'], thms=['C03_value_roundtrip', 'C03_table_roundtrip', 'C03_array_roundtrip', 'C03_type_preserved', 'C03_int_bool_exact', 'C03_keys_preserved', 'C03_decimal_value'],
                 tie=['tieA_table_mapping', 'tieA_struct_formats', 'tieA_struct_uses', 'tieA_ladder', 'tieA_codec_calls'],
                 lanes=['enc_prim', 'enc_tint', 'enc_value:ok', 'dec_prim', 'dec_value:wellformed', 'cpython_utf8', 'cpython_f32'], oracles=['c03']),
     'C04': dict(mods=['C04'], thms=['C04_value_refines_spec', 'C04_value_sorted', 'C04_args_refine_spec', 'C04_envelope_layout', 'C04_header_payload_layout', 'C04_fixed_frames'],
-                tie=['tieA_methods', 'tieA_struct_formats', 'tieA_struct_uses', 'tieA_envelope_struct_uses', 'tieA_protocol_header_struct_uses', 'tieA_content_header_struct_uses', 'tieA_frame_constants', 'tieA_ladder', 'tieA_codec_calls'],
+                tie=['tieA_methods', 'tieA_struct_formats', 'tieA_struct_uses', 'tieA_envelope_struct_uses', 'tieA_protocol_header_struct_uses', 'tieA_content_header_struct_uses', 'tieA_frame_constants', 'tieA_constant_values', 'tieA_ladder', 'tieA_codec_calls'],
                 lanes=['enc_prim', 'enc_tint', 'enc_value:ok', 'enc_value:any', 'args/args.marshal', 'props/props.marshal', 'frame/frame.marshal', 'cpython_sort', 'spec/spec.enc,spec.args'], oracles=['c04']),
     'C05': dict(mods=['C05', 'C05Frame'], thms=['C05_decode_agrees_value', 'C05_decode_agrees_table', 'C05_parse_wire', 'C05_no_validation', 'C05_timestamp_refused', 'C05_timestamp_ms', 'C05_method_args', 'C05_method_frame', 'C05_header_frame'],
                 tie=['tieA_table_mapping', 'tieA_methods', 'tieA_struct_formats', 'tieA_struct_uses', 'tieA_content_header_struct_uses', 'tieA_codec_calls'],
                 lanes=['dec_prim', 'dec_value:wellformed', 'args/args.unmarshal', 'props/props.unmarshal,flags', 'frame/frame.unmarshal.M,frame.unmarshal.H', 'spec/spec.parse'], oracles=['c05']),
     'C06': dict(mods=['C06'], thms=['C06_prefix_determines', 'C06_envelope', 'C06_stream'],
-                tie=['tieA_envelope_struct_uses', 'tieA_protocol_header_struct_uses', 'tieA_frame_constants'], lanes=['frame/frame.unmarshal,frame.envelope'], oracles=['c06']),
+                tie=['tieA_envelope_struct_uses', 'tieA_protocol_header_struct_uses', 'tieA_frame_constants', 'tieA_constant_values'], lanes=['frame/frame.unmarshal,frame.envelope'], oracles=['c06']),
     'C07': dict(mods=['C07'], thms=['C07_prefix_rejected'],
-                tie=['tieA_envelope_struct_uses', 'tieA_protocol_header_struct_uses', 'tieA_frame_constants', 'tieA_frame_except_sites'], lanes=['frame/frame.envelope,frame.unmarshal.malformed'], oracles=['c07']),
+                tie=['tieA_envelope_struct_uses', 'tieA_protocol_header_struct_uses', 'tieA_frame_constants', 'tieA_constant_values', 'tieA_frame_except_sites'], lanes=['frame/frame.envelope,frame.unmarshal.malformed'], oracles=['c07']),
     'C08': dict(mods=['C08'], thms=['C08_value_fuel_suffices', 'C08_table_fuel_suffices', 'C08_value_fuel_monotone', 'C08_unmarshal_terminates', 'C08_progress', 'C08_flags_progress', 'C08_result_size'],
                 tie=['tieA_table_mapping', 'tieA_content_header_struct_uses'], lanes=['dec_value:malformed', 'props/flags,props.unmarshal', 'frame/frame.unmarshal.malformed'], oracles=['c08']),
     'C09': dict(mods=['C09'], thms=['C09_inner_errors', 'C09_only_unmarshaling'],
@@ -76,13 +76,13 @@ REGISTRY = {
     'C16': dict(mods=['C16'], thms=['C16_history', 'C16_schedule', 'C16_no_trace'],
                 tie=['tieA_no_shared_mutation', 'tieA_no_hidden_state', 'tieA_toggle'], lanes=['api_seq', 'ctor'], oracles=['c16']),
     'C17': dict(mods=['C17'], thms=['C17_reply_codes', 'C17_class_mapping', 'C17_code_list', 'C17_constants'],
-                tie=['tieA_reply_codes', 'tieA_class_mapping', 'tieA_frame_constants'], lanes=[], oracles=['c17']),
+                tie=['tieA_reply_codes', 'tieA_class_mapping', 'tieA_constant_values'], lanes=[], oracles=['c17']),
     'C18': dict(mods=['C18'], thms=['C18_body', 'C18_heartbeat', 'C18_protocol_header'],
-                tie=['tieA_envelope_struct_uses', 'tieA_protocol_header_struct_uses', 'tieA_frame_constants'], lanes=['frame/frame.marshal.B,frame.marshal.P,frame.marshal.HB,frame.unmarshal.B,frame.unmarshal.P,frame.unmarshal.HB,frame.envelope'], oracles=['c18']),
+                tie=['tieA_envelope_struct_uses', 'tieA_protocol_header_struct_uses', 'tieA_frame_constants', 'tieA_constant_values'], lanes=['frame/frame.marshal.B,frame.marshal.P,frame.marshal.HB,frame.unmarshal.B,frame.unmarshal.P,frame.unmarshal.HB,frame.envelope'], oracles=['c18']),
     'C19': dict(mods=['C19'], thms=['C19_slots_distinct', 'C19_mapping', 'C19_amqp_type'],
                 tie=[], lanes=['ctor'], oracles=['c19']),
     'C20': dict(mods=['C20'], thms=['C20_short', 'C20_parts', 'C20_ranges', 'C20_peek_agrees'],
-                tie=['tieA_envelope_struct_uses', 'tieA_frame_constants', 'tieA_frame_except_sites'], lanes=['frame/frame.parts,frame.envelope,frame.unmarshal'], oracles=['c20']),
+                tie=['tieA_envelope_struct_uses', 'tieA_frame_constants', 'tieA_constant_values', 'tieA_frame_except_sites'], lanes=['frame/frame.parts,frame.envelope,frame.unmarshal'], oracles=['c20']),
 }
 
 TRUSTED_BASE = [
